@@ -128,6 +128,10 @@ type Req struct {
 type Reply struct {
 	Kind      string      `json:"kind"` // resp | err | hang
 	LatencyNs int64       `json:"latency_ns,omitempty"`
+	// DeclLen > 0: the length the origin declares (Response.ContentLength and the
+	// Content-Length field) whatever the body then delivers - an origin that announces more
+	// than it sends before the stream ends (shapes cl / h2 only)
+	DeclLen int64 `json:"decl_len,omitempty"`
 	Status    int         `json:"status,omitempty"`
 	Reason    string      `json:"reason,omitempty"`
 	Shape     string      `json:"shape,omitempty"` // cl (default) | chunked | close | http10 | h2 | h2nolen | nobody
